@@ -48,6 +48,8 @@ def spec_matrix_bincount2d(a, b, n_a, n_b):
                 np.add.at(jc[x, y], (a[:, x], b[:, y]), 1)
         return jc
     ra_, rb_ = _raw(funcs._as_sarr(a)), _raw(funcs._as_sarr(b))
+    # the kernel's own input assertions (proved to guard every access by the E2 safety jobs)
+    assert ra_.shape[0] == rb_.shape[0], "Feature arrays a and b must match in length"
     T = ra_.shape[0]
     o = np.empty((ra_.shape[1], rb_.shape[1], n_a, n_b), dtype=object)
     for x in range(ra_.shape[1]):
@@ -650,6 +652,46 @@ def lagged_job(T, S=2, F=2):
     return path
 
 
+def mismatch_job():
+    """feature arrays of different lengths are rejected - also when several trajectories are given and the X/Y frame-count
+    mismatches of the individual trajectories cancel in the total"""
+    mi_mod = loader.load('enspara.info_theory.mutual_info')
+    cases = [([2, 3], [3, 2]), ([1, 2], [2, 1]), ([2], [3])]
+
+    def path(ctx):
+        ctx.resolve_masks = True
+        outcomes = []
+        for lx, ly in cases:
+            Xs = [funcs.np_array([[core.fresh_int('s', 0, 1)] for _ in range(n)], dtype=np.int32) for n in lx]
+            Ys = [funcs.np_array([[core.fresh_int('s', 0, 1)] for _ in range(n)], dtype=np.int32) for n in ly]
+            try:
+                mi_mod.mi_matrix(Xs, Ys, [2], [2], normalize=False)
+                outcomes.append((lx, ly, None))
+            except (core.Unsupported, core.Inconclusive):
+                raise
+            except Exception as e:
+                outcomes.append((lx, ly, type(e).__name__))
+
+        def witness(model):
+            out = {'inputs': {'cases (X frame counts, Y frame counts)': cases}, 'skip_compare': True, 'out': None}
+            bad = []
+            with core.concrete_mode():
+                for lx, ly in cases:
+                    X2 = [np.zeros((n, 1), dtype=np.int32) for n in lx]
+                    Y2 = [np.ones((n, 1), dtype=np.int32) for n in ly]
+                    try:
+                        mi_mod.mi_matrix(X2, Y2, [2], [2], normalize=False)
+                        bad.append('mi_matrix accepted trajectories whose X and Y frame counts differ: X %s, Y %s' % (lx, ly))
+                    except Exception:
+                        pass
+            out['violated'] = bad
+            out['signature'] = 'mismatched-lengths-accepted'
+            return out
+        obs = [('trajectories whose X and Y frame counts differ are rejected (X %s, Y %s)' % (lx, ly), exc is not None) for lx, ly, exc in outcomes]
+        return PathOut(obs, {}, witness, desc='length mismatch cases %s' % (cases,))
+    return path
+
+
 def kl_job(n):
     en = loader.load('enspara.info_theory.entropy')
 
@@ -796,6 +838,7 @@ def jobs(tier):
     add('lagged_job', 'time-lagged-mi[3 frames x 2 features, overlapping views]', T=3)
     if not q:
         add('lagged_job', 'time-lagged-mi[4 frames x 2 features, overlapping views]', T=4)
+    add('mismatch_job', 'length-mismatch-rejected[per trajectory, also when the totals agree]')
     add('pooled_job', 'pooled-counts[2 trajectories x 3 frames]', T=3)
     add('pooled_job', 'pooled-counts[2 x 130 frames (2 symbolic each): count tables must not wrap in a narrow dtype]', T=130, nsym=2)
     from harness import kernels
